@@ -6,7 +6,9 @@ use crate::{
     formatters::{
         assignment::{hang_equal_token, hang_punctuated_list},
         expression::{format_expression, hang_expression},
-        general::{format_punctuated, format_punctuated_multiline},
+        general::{
+            format_punctuated, format_punctuated_multiline, format_token, FormatTokenType,
+        },
         stmt::format_stmt,
         trivia::{
             strip_leading_trivia, strip_trailing_trivia, strip_trivia, FormatTriviaType,
@@ -581,7 +583,11 @@ pub fn format_block(ctx: &Context, block: &Block, shape: Shape) -> Block {
                                 .filter(|token| trivia_util::trivia_is_comment(token))
                                 .flat_map(|x| {
                                     // Prepend a single space beforehand
-                                    vec![Token::new(TokenType::spaces(1)), x.to_owned()]
+                                    // The comment itself is formatted like any other (trailing whitespace, line endings)
+                                    vec![
+                                        Token::new(TokenType::spaces(1)),
+                                        format_token(&ctx, x, FormatTokenType::Token, shape).0,
+                                    ]
                                 }),
                         )
                         .chain(std::iter::once(create_newline_trivia(&ctx)))
@@ -634,7 +640,11 @@ pub fn format_block(ctx: &Context, block: &Block, shape: Shape) -> Block {
                                 .filter(|token| trivia_util::trivia_is_comment(token))
                                 .flat_map(|x| {
                                     // Prepend a single space beforehand
-                                    vec![Token::new(TokenType::spaces(1)), x.to_owned()]
+                                    // The comment itself is formatted like any other (trailing whitespace, line endings)
+                                    vec![
+                                        Token::new(TokenType::spaces(1)),
+                                        format_token(&ctx, x, FormatTokenType::Token, shape).0,
+                                    ]
                                 }),
                         )
                         .chain(std::iter::once(create_newline_trivia(&ctx)))
